@@ -255,6 +255,13 @@ def gen_formats(rng, tier):
                         add(kind, items, "positional")
         add("p", [D("d", pos=1), D("n", raw="%1$*2$n", pos=3)], "positional")
 
+    # -- 4b. formats longer than RSIZE_MAX_STR / RSIZE_MAX_WSTR: an `n` directive behind the point where a length-bounded
+    #        pre-scan (strnstr / wcsnstr with the limit) stops looking
+    for kind in "ps":
+        for k in (1000, 1019, 1020, 1021, 1030, 4000, 4091, 4092, 4093, 4094, 4100, 6000):
+            add(kind, [D("d"), " " * k, D("n")], "long")
+            add(kind, [" " * k, D("n"), D("d")], "long")
+
     # -- 5. random longer formats
     nrand = 60000 if thorough else 4000
     for _ in range(nrand):
